@@ -1769,7 +1769,10 @@ class CompFamily:
         names = [("DEFAULT", "NON-DEFAULT-VRF"), ("main", "blue"), ("default", "DEFAULT-2"), ("DEFAULT", "vrf/1")]
         def perm():
             return (rng.randrange(1, 10**6), rng.choice([1, 7, 1000, 2**20, 2**29]), *rng.choice(names))
-        perms = [perm()] if quick else [(0, 1, *names[0])] + [perm() for _ in range(5)]
+        def perm_with(nm):
+            return (rng.randrange(1, 10**6), rng.choice([1, 7, 1000, 2**20, 2**29]), *nm)
+        # quick: one permutation under the usual names and one under a default instance that is not called DEFAULT
+        perms = [perm_with(names[0]), perm_with(rng.choice(names[1:3]))] if quick else [(0, 1, *names[0])] + [perm_with(n_) for n_ in names[1:]] + [perm() for _ in range(4)]
         perms = [(s_, b_, d_, v_) for (s_, b_, d_, v_) in perms]
         events = segs = nontrivial = 0
         samples = []
